@@ -38,6 +38,9 @@ func NewGen() *Gen {
 		funSeen: map[string]bool{}, strLits: map[string]string{}, errGlobals: map[string]int{},
 		usedExt: map[string]bool{}, sortOfType: map[string]string{},
 	}
+	for _, n := range []string{"decquo", "nlmul", "band", "bor", "bxor", "strlen", "strcat", "strlt", "strcontains", "strhasprefix", "addrStr", "addrOf", "validAddr"} {
+		g.funSeen[n] = true
+	}
 	return g
 }
 
@@ -94,7 +97,8 @@ func opaqueStruct(n *types.Named) bool {
 		return strings.HasSuffix(p, "/keeper") || strings.HasSuffix(p, "/app")
 	}
 	switch p + "." + n.Obj().Name() {
-	case "github.com/cosmos/cosmos-sdk/types.Coin", "github.com/cosmos/cosmos-sdk/types.DecCoin":
+	case "github.com/cosmos/cosmos-sdk/types.Coin", "github.com/cosmos/cosmos-sdk/types.DecCoin",
+		"github.com/cosmos/cosmos-sdk/x/staking/types.Delegation", "github.com/cosmos/cosmos-sdk/x/staking/types.Validator":
 		return false
 	}
 	return true
@@ -522,6 +526,7 @@ const preludeFuns = `
 (assert (forall ((a Int)) (! (= (nlmul 0 a) 0) :pattern ((nlmul 0 a)))))
 (assert (forall ((a Int)) (! (= (nlmul a 1) a) :pattern ((nlmul a 1)))))
 (assert (forall ((a Int)) (! (= (nlmul 1 a) a) :pattern ((nlmul 1 a)))))
+(declare-fun decquo (Int Int) Int)
 (declare-fun band (Int Int) Int)
 (declare-fun bor (Int Int) Int)
 (declare-fun bxor (Int Int) Int)
